@@ -93,7 +93,7 @@ def load_known():
             continue
         if line.startswith('open:'):
             rest = line[len('open:'):].strip()
-            head, _, what = rest.partition('::')
+            head, _, what = rest.partition(' :: ')
             fields = dict(f.split('=', 1) for f in head.split() if '=' in f and not f.startswith('key='))
             key = head[head.index('key=') + 4:].strip() if 'key=' in head else ''
             out.append({'status': 'open', 'property': fields.get('property'), 'key': key, 'what': what.strip()})
